@@ -59,7 +59,7 @@ def chain(draw, cid="A", nmin=1, nmax=6, wild=False, hyd=None, variants=0.2, sta
     seq = draw(st.lists(names or resname(variants), min_size=n, max_size=n))
     d = dict(
         id=cid,
-        start=draw(st.sampled_from([1, 1, 1, -3, 27, 998, 9995])) if start is None else start,
+        start=draw(st.sampled_from([1, 1, 1, -3, 0, -1, 27, 998, 9995])) if start is None else start,
         seq=seq,
         phi=draw(st.lists(phi(), min_size=n, max_size=n)),
         psi=draw(st.lists(psi(), min_size=n, max_size=n)),
@@ -77,6 +77,8 @@ def chain(draw, cid="A", nmin=1, nmax=6, wild=False, hyd=None, variants=0.2, sta
         d["altmod"] = draw(st.sampled_from([1, 2, 3]))  # old / alternative atom names in the input
     if d["hyd"] == "all" and draw(st.integers(0, 1)) == 0:
         d["hdrop"] = [[draw(st.integers(0, n - 1)), draw(st.integers(0, 40))] for _ in range(draw(st.integers(1, 3)))]
+    if draw(st.integers(0, 3)) == 0:
+        d["shuffle"] = draw(st.integers(1, 1000))  # atoms of a residue listed in an unusual order
     if d["start"] + n > 9999:  # the PDB residue-number column has 4 characters
         d["start"] = 9999 - n
     return d
